@@ -32,7 +32,7 @@ func (c *zzCtx) Err() error {
 		return nil
 	}
 }
-func (c *zzCtx) Value(key any) any { return nil }
+func (c *zzCtx) Value(key any) any           { return nil }
 func (c *zzCtx) Deadline() (time.Time, bool) { return time.Time{}, false }
 
 func zzNewCtx(cancelled bool) *zzCtx {
